@@ -18,15 +18,29 @@ TraceFile == JsonDeserialize(IOEnv.TRACE_FILE)
 Events == TraceFile.events
 NoDev == {}
 
-VARIABLES title, section, subsection, lists, path, cookies, smc, ret, last, ghost, markers,
+VARIABLES title, section, subsection, lists, path, cookies, smc, ret, last, ghost, markers, pos,
           l,        \* index of the next event
           bad,      \* failed clauses so far
-          ppath     \* the path observed after the previous call
+          ppath,    \* the path observed after the previous call
+          re        \* re-announcements consumed so far (calls whose argument was the current value)
 S == INSTANCE Session WITH Dev <- NoDev
 
-tvars == <<title, section, subsection, lists, path, cookies, smc, ret, last, ghost, markers, l, bad, ppath>>
+tvars == <<title, section, subsection, lists, path, cookies, smc, ret, last, ghost, markers, pos, l, bad, ppath, re>>
 
-TInit == S!Init /\ l = 1 /\ bad = <<>> /\ ppath = <<>>
+NoRe == [page |-> 0, page_dirty |-> 0, section |-> 0, section_sub |-> 0, subsection |-> 0,
+         lastsame |-> FALSE]     \* the last positioning call was a re-announcement
+TInit == S!Init /\ l = 1 /\ bad = <<>> /\ ppath = <<>> /\ re = NoRe
+
+\* which re-announcement the event is, judged on the specification's state before it
+\* (page_dirty: start_page(T) on page T with messages, a section or cookies to clear;
+\*  section_sub: start_section(S) in section S with a subsection to clear)
+ReOf(e) ==
+  CASE e.op = "start_page" /\ S!SamePage(e.a) ->
+         IF S!TotalMsgs > 0 \/ section # S!None \/ subsection # S!None \/ cookies # <<>> THEN {"page", "page_dirty"} ELSE {"page"}
+    [] e.op = "start_section" /\ S!SameSection(e.a) ->
+         IF subsection # S!None THEN {"section", "section_sub"} ELSE {"section"}
+    [] e.op = "start_subsection" /\ S!SameSubsection(e.a) /\ e.a # S!None -> {"subsection"}
+    [] OTHER -> {}
 
 SetOf(q) == {q[i] : i \in 1..Len(q)}
 AllNew(e, P(_)) == \A k \in S!Kinds : \A i \in 1..Len(e.obs.new[k]) : P(e.obs.new[k][i])
@@ -49,9 +63,10 @@ Clauses(e) ==
     lists_len      |-> \A k \in S!Kinds : e.obs.lens[k] = Len(lists'[k]),
     lists_stable   |-> e.obs.stable,
     msg_keys       |-> AllNew(e, LAMBDA m : SetOf(m.keys) = S!DocKeys /\ m.tuple),
+    \* the stamps: the documented position (declarative reference pos), not the fields
     msg_title      |-> AllNew(e, LAMBDA m : m.title = S!StampT(title')),
-    msg_section    |-> AllNew(e, LAMBDA m : m.section = S!StampS(section')),
-    msg_subsection |-> AllNew(e, LAMBDA m : m.subsection = S!StampS(subsection')),
+    msg_section    |-> AllNew(e, LAMBDA m : m.section = S!StampS(pos'.section)),
+    msg_subsection |-> AllNew(e, LAMBDA m : m.subsection = S!StampS(pos'.subsection)),
     msg_path       |-> Pairwise(e, LAMBDA m, x : m.path = x.path),
     msg_text       |-> Pairwise(e, LAMBDA m, x : m.msg = x.msg /\ m.trace = x.trace),
     msg_sortid     |-> Pairwise(e, LAMBDA m, x : m.called_from = x.called_from),
@@ -62,7 +77,11 @@ Clauses(e) ==
 
 Predicted == [title |-> title', section |-> section', subsection |-> subsection', path |-> path',
               lens |-> [k \in S!Kinds |-> Len(lists'[k])], new |-> [k \in S!Kinds |-> NewOf(k)],
-              cookies |-> cookies', ret |-> ret']
+              cookies |-> cookies', ret |-> ret',
+              stamp_title |-> S!StampT(title'), stamp_section |-> S!StampS(pos'.section),
+              stamp_subsection |-> S!StampS(pos'.subsection),
+              \* the last positioning call re-announced the current value (this event, if it is one)
+              same |-> re'.lastsame]
 
 Check(e) ==
   \E c \in {Clauses(e)} :
@@ -83,14 +102,19 @@ Act(e) ==
     [] e.op = "strip_marker" -> S!StripMarker(e.a, e.b)
 
 TNext == /\ l <= Len(Events)
-         /\ \E e \in {Events[l]} : Act(e) /\ Check(e) /\ ppath' = e.obs.path
+         /\ \E e \in {Events[l]} : /\ re' = [n \in DOMAIN re |->
+                                               IF n = "lastsame"
+                                               THEN IF e.op \in {"start_page", "start_section", "start_subsection"}
+                                                    THEN ReOf(e) # {} ELSE e.op # "reset" /\ re[n]
+                                               ELSE IF n \in ReOf(e) THEN re[n] + 1 ELSE re[n]]
+                                   /\ Act(e) /\ Check(e) /\ ppath' = e.obs.path
          /\ l' = l + 1
 TSpec == TInit /\ [][TNext]_tvars
 
 \* printed once, in the state that has consumed the whole trace
-Verdict == (l = Len(Events) + 1) => PrintT(<<"VERDICT", ToJson([consumed |-> l - 1, bad |-> bad])>>)
+Verdict == (l = Len(Events) + 1) => PrintT(<<"VERDICT", ToJson([consumed |-> l - 1, bad |-> bad, re |-> re])>>)
 \* the model-level invariants hold along every validated execution too
-ModelInv == /\ S!StampsTitleSection /\ S!StampsSubsection /\ S!PathIsTitle /\ S!CookieInjective
+ModelInv == /\ S!PosIsState /\ S!AnnouncedPosition /\ S!StampsTitleSection /\ S!StampsSubsection /\ S!PathIsTitle /\ S!CookieInjective
             /\ S!CleanAfterStartPage /\ S!SubsectionClearedByStartSection
             /\ S!NowikiNumbered /\ S!StripSameContentSameNumber
 Accepted == TLCGet("stats").diameter = Len(Events) + 1
